@@ -108,7 +108,7 @@ pub struct StunMessage {
 impl StunMessage {
     #[cfg(feature = "attrs")]
     pub fn light(class: MessageClass, tid: TransactionId) -> Self {
-        StunMessage { class, tid, method: MessageMethod(0), attrs: Vec::new() }
+        StunMessage { class, tid, method: MessageMethod(0), attrs: Vec::with_capacity(8) }
     }
     #[cfg(not(feature = "attrs"))]
     pub fn light(class: MessageClass, tid: TransactionId) -> Self {
